@@ -14,7 +14,7 @@ use std::pin::Pin;
 use std::sync::Mutex;
 use std::sync::atomic::{AtomicU64, Ordering};
 
-type YieldFuture = Pin<Box<dyn Future<Output = ()>>>;
+type YieldFuture = Pin<Box<dyn Future<Output = ()> + Send>>;
 type YieldHandler = Box<dyn Fn(&'static str) -> Option<YieldFuture>>;
 
 thread_local! {
